@@ -1,0 +1,12 @@
+//go:build verif
+// +build verif
+
+package distributed
+
+// VerifSetClock replaces the timestamp source of the replicated state and
+// returns the previous one. Compiled only with the "verif" build tag.
+func VerifSetClock(fn func() int64) func() int64 {
+	old := clock
+	clock = fn
+	return old
+}
